@@ -13,8 +13,13 @@ import WcModel.Proofs.GlobFlags
   case-sensitive, not pathlib).  Under IGNORECASE two different files whose names differ
   only in case have one key, so only the first is returned (witness `ignorecase_collapses`;
   the property's "under whichever case rule is in force" reads that as one path).
-  NOT proved: `single_pattern_shortcut_sound` — it is false (witness `shortcut_duplicates`,
-  known finding KF-D20).
+  `single_pattern_shortcut_sound` (the "one pattern ⇒ skip the `seen` set" optimisation,
+  glob.py 539-546, changes nothing) is FALSE as it stands — two witnesses: `shortcut_duplicates`
+  (KF-G1: `**/a/**` reaches `a/a/f` through two expansions of the first `**`, same spelling
+  twice) and `shortcut_case_variants` (KF-D23: under IGNORECASE two entries that differ only in
+  case are both returned, the multi-pattern path returns one).  Proved instead, with exactly
+  the hypothesis it needs: `shortcut_sound_of_injective` — if the pattern's own result list
+  has pairwise different keys, the shortcut changes nothing.
 -/
 namespace WcModel.C13
 
@@ -88,6 +93,27 @@ theorem single (w : WCtx) (fs : FS) (fuel : Nat) (p : List GPart) (x : List Char
   obtain ⟨q, hq, h⟩ := union_sound w fs fuel [p] x hx
   simp at hq; subst hq; exact h
 
+/-- the per-pattern list does not depend on the NOUNIQUE switch -/
+theorem perPattern_nounique (w : WCtx) (b : Bool) (fs : FS) (fuel : Nat) (p : List GPart) :
+    perPattern { w with nounique := b } fs fuel p = perPattern w fs fuel p := rfl
+
+/-- **C13_single_pattern_shortcut_sound, with the hypothesis it needs**: when the one
+    pattern's own results have pairwise different keys, skipping the `seen` set (what
+    glob.py 539-546 does under SCANDOTDIR) returns exactly what the `seen` set would. -/
+theorem shortcut_sound_of_injective (w : WCtx) (fs : FS) (fuel : Nat) (p : List GPart)
+    (hinj : ((perPattern w fs fuel p).map (uniqKey w)).Nodup) :
+    globResults { w with nounique := true } fs fuel [p] = globResults { w with nounique := false } fs fuel [p] := by
+  have e1 : globResults { w with nounique := true } fs fuel [p] = perPattern w fs fuel p := by
+    rw [globResults_eq, uniqEv_nounique _ rfl]
+    simp only [List.flatMap_cons, List.flatMap_nil, List.append_nil]
+    rfl
+  rw [e1, globResults_eq]
+  simp only [List.flatMap_cons, List.flatMap_nil, List.append_nil]
+  rw [uniqEv_of_nodup]
+  · rfl
+  · exact hinj
+  · intro x _ h; cases h
+
 /-! ### witnesses (`decide +kernel`) -/
 
 def wU : WCtx :=
@@ -120,7 +146,7 @@ def litA : GPart := ⟨.lit "a".toList, false, false, false, true, false⟩
 /-- `**/a/**` -/
 def pDeep : List GPart := [gstar, litA, { gstar with dirOnly := false }]
 
-/-- **shortcut_duplicates** (KF-D20): the "single pattern ⇒ no `seen` set" shortcut
+/-- **shortcut_duplicates** (KF-G1): the "single pattern ⇒ no `seen` set" shortcut
     (glob.py 539-546, taken under SCANDOTDIR) returns `a/a/f` twice for `**/a/**`; with the
     `seen` set it is returned once.  So `single_pattern_shortcut_sound` is false. -/
 theorem shortcut_duplicates :
@@ -128,5 +154,20 @@ theorem shortcut_duplicates :
       ["a/".toList, "a/a".toList, "a/a/f".toList, "a/a/".toList, "a/a/f".toList] ∧
     globResults wU t2 5 [pDeep] = ["a/".toList, "a/a".toList, "a/a/f".toList, "a/a/".toList] := by
   decide +kernel
+
+/-- r/ = { A/, a } -/
+def t3 : FS := ⟨.dir [("A".toList, .dir []), ("a".toList, .file)], []⟩
+def pLitA : List GPart := [⟨.lit "A".toList, false, false, false, false, false⟩]
+
+/-- **shortcut_case_variants** (KF-D23): `glob('A', IGNORECASE|SCANDOTDIR)` — with the shortcut
+    both `A` and `a` come back, with the `seen` set only the first.  (The hypothesis of
+    `shortcut_sound_of_injective` fails: one case-folded key for two entries.) -/
+theorem shortcut_case_variants :
+    globResults { wU with caseSensitive := false, nounique := true } t3 3 [pLitA] = ["A".toList, "a".toList] ∧
+    globResults { wU with caseSensitive := false } t3 3 [pLitA] = ["A".toList] := by
+  decide +kernel
+
+/-- non-vacuity of `shortcut_sound_of_injective`: `*` on `t1` under the case-sensitive rule -/
+example : ((perPattern wU t1 3 pAll).map (uniqKey wU)).Nodup := by decide +kernel
 
 end WcModel.C13
